@@ -14,34 +14,8 @@ impl Clone for Diff { #[verifier::external_body] fn clone(&self) -> (r: Self) en
 //@type base/src/user_model/history.rs QueueDiffs
 #[verifier::external_body] pub struct Model<'a> { _p: core::marker::PhantomData<&'a u8> }
 //@type base/src/user_model/common.rs UserModel
-pub open spec fn small(x: int) -> bool { -4194304 <= x <= 4194304 }
 
-/// ghost record of one call into the engine
-pub enum Call {
-    SetUserArrayFormula(u32, i32, i32, i32, i32, Seq<char>),
-    SetColumnWidth(u32, i32, f64),
-    SetColumnHidden(u32, i32, bool),
-    SetRowHeight(u32, i32, f64),
-    SetRowHidden(u32, i32, bool),
-    InsertRows(u32, i32, i32),
-    DeleteRows(u32, i32, i32),
-    InsertColumns(u32, i32, i32),
-    DeleteColumns(u32, i32, i32),
-    SetFrozenRows(u32, i32),
-    SetFrozenColumns(u32, i32),
-    RenameSheet(u32, Seq<char>),
-    SetSheetColor(u32, Color),
-    SetShowGridLines(u32, bool),
-    SetSheetState(u32, SheetState),
-    MoveColumnsAction(u32, i32, i32, i32),
-    MoveRowsAction(u32, i32, i32, i32),
-    SetLocale(Seq<char>),
-    SetTimezone(Seq<char>),
-    DeleteColumnStyle(u32, i32),
-    DeleteRowStyle(u32, i32),
-    NewDefinedName(Seq<char>, Option<u32>, Seq<char>),
-    DeleteDefinedName(Seq<char>, Option<u32>),
-}
+//@include diff_meaning.rs
 impl<'a> Model<'a> {
     /// the sequence of mutating engine calls performed so far (ghost; the engine state is a function of it: A-functional)
     pub uninterp spec fn log(&self) -> Seq<Call>;
@@ -139,48 +113,6 @@ impl<'a> Model<'a> {
 //@end
 }
 
-// ---- what redo / undo of each recorded diff must do to the engine (from the meaning of the variant) ----
-pub open spec fn redo_SetArrayValue(sheet: &u32, row: &i32, column: &i32, width: &i32, height: &i32, new_value: &String) -> Seq<Call> { seq![Call::SetUserArrayFormula(*sheet, *row, *column, *width, *height, new_value@)] }
-pub open spec fn redo_SetColumnWidth(sheet: &u32, column: &i32, new_value: &f64, old_value: &f64) -> Seq<Call> { seq![Call::SetColumnWidth(*sheet, *column, *new_value)] }
-pub open spec fn undo_SetColumnWidth(sheet: &u32, column: &i32, new_value: &f64, old_value: &f64) -> Seq<Call> { seq![Call::SetColumnWidth(*sheet, *column, *old_value)] }
-pub open spec fn redo_SetColumnHidden(sheet: &u32, column: &i32, new_value: &bool, old_value: &bool) -> Seq<Call> { seq![Call::SetColumnHidden(*sheet, *column, *new_value)] }
-pub open spec fn undo_SetColumnHidden(sheet: &u32, column: &i32, new_value: &bool, old_value: &bool) -> Seq<Call> { seq![Call::SetColumnHidden(*sheet, *column, *old_value)] }
-pub open spec fn redo_SetRowHeight(sheet: &u32, row: &i32, new_value: &f64, old_value: &f64) -> Seq<Call> { seq![Call::SetRowHeight(*sheet, *row, *new_value)] }
-pub open spec fn undo_SetRowHeight(sheet: &u32, row: &i32, new_value: &f64, old_value: &f64) -> Seq<Call> { seq![Call::SetRowHeight(*sheet, *row, *old_value)] }
-pub open spec fn redo_SetRowHidden(sheet: &u32, row: &i32, new_value: &bool, old_value: &bool) -> Seq<Call> { seq![Call::SetRowHidden(*sheet, *row, *new_value)] }
-pub open spec fn undo_SetRowHidden(sheet: &u32, row: &i32, new_value: &bool, old_value: &bool) -> Seq<Call> { seq![Call::SetRowHidden(*sheet, *row, *old_value)] }
-pub open spec fn redo_InsertRows(sheet: &u32, row: &i32, count: &i32) -> Seq<Call> { seq![Call::InsertRows(*sheet, *row, *count)] }
-pub open spec fn undo_InsertRows(sheet: &u32, row: &i32, count: &i32) -> Seq<Call> { seq![Call::DeleteRows(*sheet, *row, *count)] }
-pub open spec fn redo_InsertColumns(sheet: &u32, column: &i32, count: &i32) -> Seq<Call> { seq![Call::InsertColumns(*sheet, *column, *count)] }
-pub open spec fn undo_InsertColumns(sheet: &u32, column: &i32, count: &i32) -> Seq<Call> { seq![Call::DeleteColumns(*sheet, *column, *count)] }
-pub open spec fn redo_DeleteRows(sheet: &u32, row: &i32, count: &i32) -> Seq<Call> { seq![Call::DeleteRows(*sheet, *row, *count)] }
-pub open spec fn redo_DeleteColumns(sheet: &u32, column: &i32, count: &i32) -> Seq<Call> { seq![Call::DeleteColumns(*sheet, *column, *count)] }
-pub open spec fn redo_SetFrozenRowsCount(sheet: &u32, new_value: &i32, old_value: &i32) -> Seq<Call> { seq![Call::SetFrozenRows(*sheet, *new_value)] }
-pub open spec fn undo_SetFrozenRowsCount(sheet: &u32, new_value: &i32, old_value: &i32) -> Seq<Call> { seq![Call::SetFrozenRows(*sheet, *old_value)] }
-pub open spec fn redo_SetFrozenColumnsCount(sheet: &u32, new_value: &i32, old_value: &i32) -> Seq<Call> { seq![Call::SetFrozenColumns(*sheet, *new_value)] }
-pub open spec fn undo_SetFrozenColumnsCount(sheet: &u32, new_value: &i32, old_value: &i32) -> Seq<Call> { seq![Call::SetFrozenColumns(*sheet, *old_value)] }
-pub open spec fn redo_RenameSheet(index: &u32, old_value: &String, new_value: &String) -> Seq<Call> { seq![Call::RenameSheet(*index, new_value@)] }
-pub open spec fn undo_RenameSheet(index: &u32, old_value: &String, new_value: &String) -> Seq<Call> { seq![Call::RenameSheet(*index, old_value@)] }
-pub open spec fn redo_SetSheetColor(index: &u32, old_value: &Color, new_value: &Color) -> Seq<Call> { seq![Call::SetSheetColor(*index, *new_value)] }
-pub open spec fn undo_SetSheetColor(index: &u32, old_value: &Color, new_value: &Color) -> Seq<Call> { seq![Call::SetSheetColor(*index, *old_value)] }
-pub open spec fn redo_SetShowGridLines(sheet: &u32, old_value: &bool, new_value: &bool) -> Seq<Call> { seq![Call::SetShowGridLines(*sheet, *new_value)] }
-pub open spec fn undo_SetShowGridLines(sheet: &u32, old_value: &bool, new_value: &bool) -> Seq<Call> { seq![Call::SetShowGridLines(*sheet, *old_value)] }
-pub open spec fn redo_SetSheetState(index: &u32, old_value: &SheetState, new_value: &SheetState) -> Seq<Call> { seq![Call::SetSheetState(*index, *new_value)] }
-pub open spec fn undo_SetSheetState(index: &u32, old_value: &SheetState, new_value: &SheetState) -> Seq<Call> { seq![Call::SetSheetState(*index, *old_value)] }
-pub open spec fn redo_MoveColumns(sheet: &u32, column: &i32, column_count: &i32, delta: &i32) -> Seq<Call> { seq![Call::MoveColumnsAction(*sheet, *column, *column_count, *delta)] }
-pub open spec fn undo_MoveColumns(sheet: &u32, column: &i32, column_count: &i32, delta: &i32) -> Seq<Call> { seq![Call::MoveColumnsAction(*sheet, (*column + *delta) as i32, *column_count, (-*delta) as i32)] }
-pub open spec fn redo_MoveRows(sheet: &u32, row: &i32, row_count: &i32, delta: &i32) -> Seq<Call> { seq![Call::MoveRowsAction(*sheet, *row, *row_count, *delta)] }
-pub open spec fn undo_MoveRows(sheet: &u32, row: &i32, row_count: &i32, delta: &i32) -> Seq<Call> { seq![Call::MoveRowsAction(*sheet, (*row + *delta) as i32, *row_count, (-*delta) as i32)] }
-pub open spec fn redo_SetLocale(old_value: &String, new_value: &String) -> Seq<Call> { seq![Call::SetLocale(new_value@)] }
-pub open spec fn undo_SetLocale(old_value: &String, new_value: &String) -> Seq<Call> { seq![Call::SetLocale(old_value@)] }
-pub open spec fn redo_SetTimezone(old_value: &String, new_value: &String) -> Seq<Call> { seq![Call::SetTimezone(new_value@)] }
-pub open spec fn undo_SetTimezone(old_value: &String, new_value: &String) -> Seq<Call> { seq![Call::SetTimezone(old_value@)] }
-pub open spec fn redo_DeleteColumnStyle(sheet: &u32, column: &i32) -> Seq<Call> { seq![Call::DeleteColumnStyle(*sheet, *column)] }
-pub open spec fn redo_DeleteRowStyle(sheet: &u32, row: &i32) -> Seq<Call> { seq![Call::DeleteRowStyle(*sheet, *row)] }
-pub open spec fn redo_CreateDefinedName(name: &String, scope: &Option<u32>, value: &String) -> Seq<Call> { seq![Call::NewDefinedName(name@, *scope, value@)] }
-pub open spec fn undo_CreateDefinedName(name: &String, scope: &Option<u32>, value: &String) -> Seq<Call> { seq![Call::DeleteDefinedName(name@, *scope)] }
-pub open spec fn redo_DeleteDefinedName(name: &String, scope: &Option<u32>, old_value: &String) -> Seq<Call> { seq![Call::DeleteDefinedName(name@, *scope)] }
-pub open spec fn undo_DeleteDefinedName(name: &String, scope: &Option<u32>, old_value: &String) -> Seq<Call> { seq![Call::NewDefinedName(name@, *scope, old_value@)] }
 
 impl<'a> UserModel<'a> {
 pub fn redo_arm_SetArrayValue(&mut self, sheet: &u32, row: &i32, column: &i32, width: &i32, height: &i32, new_value: &String) -> (r: Result<(), String>)
